@@ -343,6 +343,14 @@ retry:
                 return status::OK_SCAN_END;
             }
         } else {
+            if constexpr (!is_inlinable<ValueType>()) {
+                // A concurrent remove clears the slot before it shrinks the
+                // permutation and does not bump the version: read this border again.
+                if (vp == nullptr) {
+                    clean_up_tuple_list_nvc();
+                    goto retry; // NOLINT
+                }
+            }
             auto in_range = [&full_key, &tuple_list, &vp, &node_version_vec,
                              &v_at_fb, &node_version_ptr, &tuple_pushed_num,
                              max_size]() {
